@@ -23,6 +23,9 @@ partial def readVD : Sexp → Option VD
       | .list [n, .list [.atom "s", v]] => do pure ((← readStr n), AttrV.static (← readStr v))
       | .list [n, .list [.atom "d", .atom g]] => do pure ((← readStr n), AttrV.dyn (← g.toNat?))
       | .list [n, .list [.atom "b", .atom g]] => do pure ((← readStr n), AttrV.dynBool (← g.toNat?))
+      -- the same attributes built as a closure that returns a signal: same meaning
+      | .list [n, .list [.atom "D", .atom g]] => do pure ((← readStr n), AttrV.dyn (← g.toNat?))
+      | .list [n, .list [.atom "B", .atom g]] => do pure ((← readStr n), AttrV.dynBool (← g.toNat?))
       | _ => none
     pure (.el (← readStr tag) as (VDList.ofList (← cs.mapM readVD)))
   | .list [.atom "text", s] => (readStr s).map .text
